@@ -29,7 +29,10 @@ func (s *Service) startHTTPServer() {
 			err = h.ListenAndServe()
 		}
 
-		if err != nil {
+		// Shutdown makes ListenAndServe return http.ErrServerClosed. That is the
+		// end of a stop already in progress, not a cause to stop - by then the
+		// service may have been started again.
+		if err != nil && err != http.ErrServerClosed {
 			s.Stop(err)
 		}
 	}()
